@@ -82,6 +82,9 @@ W['C13/internal_forwarder'] = one(module(defs=[
     T('D', [], [F('a', ty_id('A'), [a_ident('base')]), F('b', ty_id('B'), [a_ident('base')])])],
     impls=[impl('A', [], [af('_tick', 4096)]), impl('B', [], [af('_tick', 8192)])]), 'internal-forwarder', ps=8)
 W['C07/underscore_base_fn'] = W['C13/internal_forwarder']
+W['C19/module_path_becomes_type'] = case('module-path-becomes-type', 8, [modent(path('a', 'b'), module(defs=[
+    T('b', [], [F('x', u32)]), T('U', [], [F('t', ty_id('b'))])]))],
+    extras=[[S('fseed'), 1], [S('observe-hint'), path('a', 'b')], [S('witness-module-path-becomes-type')]])
 W['C13/rename_clash'] = one(module(defs=[
     T('A', [], [F('x', u32)]), T('B', [], [F('y', u32)]),
     T('D', [], [F('a', ty_id('A'), [a_ident('base')]), F('b', ty_id('B'), [a_ident('base')])])],
